@@ -353,6 +353,17 @@ func checkC13(c *Ctx) {
 		c.ok("C13-CONS", "Lexer.PeekNextToken", "no removal", peek.Pos(), "peek leaves the queue unchanged")
 	}
 	c.checkParserStopOrder("C13-STOP")
+	// the look-ahead helper never hands the end-of-input marker to its caller as a token
+	{
+		ok, why := c.peekContract()
+		pos := token.NoPos
+		if f := c.fn("Parser.ParserPeekNextToken"); f != nil {
+			pos = f.Pos()
+		}
+		c.check(ok, "C13-YIELD", "Parser.ParserPeekNextToken", "asks for more input until a token arrives", pos,
+			"a nil error is returned only with a token other than the end marker; at the end of the available input the request for more is stored, yielded, and the peek repeated",
+			"the look-ahead can report success at the end of the available input: "+why+" — where a text is cut then decides how it is read")
+	}
 }
 
 func constInt64(k *types.Const) (int64, bool) {
